@@ -189,7 +189,7 @@ func (g *gen) chance(label string, outOf int) bool {
 	return rapid.IntRange(0, outOf-1).Draw(g.t, label) == outOf-1
 }
 
-var words = []string{"x", "hello", "world", "42", "a.b", "é", "naïve", "日本", "ok;", "#1", "50%", "a/b", "(c)", "[d]", "=", "--", "e=mc2"}
+var words = []string{"x", "hello", "world", "42", "a.b", "é", "naïve", "日本", "😀", "–", "ok;", "#1", "50%", "a/b", "(c)", "[d]", "=", "--", "e=mc2"}
 
 var mustachesSafe = []string{
 	"{{ name }}", "{{ a < b }}", "{{ a > b }}", "{{ a <= b && c >= d }}", "{{ x && y || !z }}",
@@ -201,6 +201,35 @@ var mustachesSafe = []string{
 // need escaping in the source because, written raw, the HTML5 parser reads a tag or a
 // character reference; region of finding fMustache
 var mustachesRisky = []string{"{{ a<b }}", "{{ '<b>' + x }}", `{{ "</p>" }}`, "{{ p&lt }}", "{{ x ? '<i>' : '&amp;' }}"}
+
+var wideBits = []string{"ü", "Grüße", "–", "©", "日本", "😀", "é", "naïve 😀", "→", "ß", "€", "𝒳"}
+
+// mustacheBody composes an expression from plain tokens, multi-byte text (2-, 3- and 4-byte
+// runes) and hazards (text that must stay escaped: "<" + letter, "</", "<!", "<?",
+// character-reference-like text, quotes) in random order, so that non-ASCII text often
+// precedes a hazard and the byte offset of the hazard differs from its rune offset.
+func (g *gen) mustacheBody() string {
+	var sb strings.Builder
+	sb.WriteString("{{ ")
+	k := g.n("mbk", 2, 5)
+	for i := 0; i < k; i++ {
+		if i > 0 {
+			sb.WriteString(g.pick("mbsep", []string{" ", "", " + ", `" + "`, " "}))
+		}
+		switch g.n("mbp", 0, 5) {
+		case 0, 1:
+			sb.WriteString(g.pick("mbwide", wideBits))
+		case 2:
+			sb.WriteString(g.pick("mbhaz", []string{"<b>", "</p>", "<br>", "<!-- x -->", "<?x", "a<b", "&amp;", "&lt;", "<i class='x'>", `"<em>"`}))
+		case 3:
+			sb.WriteString(g.entityLike())
+		default:
+			sb.WriteString(g.pick("mbplain", []string{"x", "a < b", "n", `"q"`, "'s'", "&&", "|", "user.name", `"`, "'"}))
+		}
+	}
+	sb.WriteString(" }}")
+	return sb.String()
+}
 
 func rawSafeText(s string) bool { return !riskyText(s) }
 
@@ -231,7 +260,9 @@ func (g *gen) textSource(allowWS bool) string {
 			sb.WriteString(escText(m, g.n("mraw", 0, 3) > 0))
 		case 7:
 			m := g.pick("mr", mustachesRisky)
-			if g.chance("mrent", 2) {
+			if g.chance("mrbody", 2) {
+				m = g.mustacheBody()
+			} else if g.chance("mrent", 2) {
 				e := g.entityLike()
 				m = g.pick("mrshape", []string{`{{ html("%s") }}`, "{{ a %s b }}", "{{ '%s' + x }}", "{{ x | default(\"%s%s\") }}"})
 				m = strings.ReplaceAll(m, "%s", e)
@@ -348,7 +379,7 @@ var freeBits = []string{
 	"x", "hello world", "a  b", " lead", "trail ", "a\nb", "a\n    b", "a\tb", `"`, `say "hi"`, "'", "it's", `"'`,
 	"&", "&&", "a & b", "AT&T", "&amp;", "&lt;", "&quot;", "&#39;", "&copy", "&copy;", "&lt", "&amp", "&notit;", "&#x3c;", "a&b=c", "?a=1&b=2", "?a=1&copy=2&lt=3",
 	"<", ">", "<=", "=>", "a < b", "a<b", "<b>", "</p>", "{{ x }}", "{{ a < b }}", `{{ "q" }}`, "{a: 1}", `{"a": 1, "b": "x"}`,
-	"é", "日本", "100%", "a;b", "=", "`", "\\", "\r\n", "\u00a0", "a\u00a0b", "\u2003x",
+	"é", "日本", "ü", "Grüße", "–", "©", "😀", "€", "100%", "a;b", "=", "`", "\\", "\r\n", "\u00a0", "a\u00a0b", "\u2003x",
 }
 
 // entityLike draws literal text that looks like a character reference: named (letters only, with
@@ -468,7 +499,7 @@ func (g *gen) attrs(tag string, extra ...attr) []attr {
 			push(attr{name: "href", val: g.pick("href", []string{"#", "/a/b", "/s?q=1&p=2", "/s?a=1&amp=2&lt=3", "https://x.test/?a=b&c=d#e", "mailto:a@b.c", "{{ url }}", "/p/{{ id }}?x=1&y=2"})})
 		case 14:
 			e := g.entityLike()
-			shape := g.pick("entshape", []string{"%s", "'%s'", "type %s for a half", "a%sb", "%s%s", "x ? '%s' : y", "?a=1%s2"})
+			shape := g.pick("entshape", []string{"%s", "'%s'", "type %s for a half", "a%sb", "%s%s", "x ? '%s' : y", "?a=1%s2", "Grüße %s", "😀%s", "日本 – %s ©", "\"ü\" + \"%s\""})
 			push(attr{name: g.pick("entattr", []string{"title", ":title", "v-html", "data-ent", "alt", "@click", "href"}), val: strings.ReplaceAll(shape, "%s", e)})
 		case 13:
 			push(attr{name: g.pick("empty", []string{"value", "alt", "data-empty", "class"}), val: g.pick("emptyv", []string{"", "", " ", "  ", "\n"})})
